@@ -566,6 +566,51 @@ def reallocfail(run, fx):
         run.broken('OWNFIELD', 'failed realloc frees the old block', 'expected the 3 realloc sites (Code::Code, Pass::readRules, Vector::reserve), found %d' % n)
 
 
+def nestedfree(run, fx):
+    """OWNFIELD for arrays of owned blocks: when a destructor frees the ELEMENTS of a member array and then the array (CachedCmap::m_blocks,
+    the glyph and box tables of GlyphCache, Segment's slot blocks), any other function that frees the array must free the elements too:
+    giving up only the index orphans every block hanging from it (an early exit of a constructor after some blocks were filled)."""
+    n, bad = 0, []
+    for dt in fx.all_fns():
+        if not dt.q.split('::')[-1].startswith('~') or not dt.file.startswith('src/') or dt.f.get('implicit'):
+            continue
+        elems, whole = set(), set()
+        for _, e in dt.elements():
+            a = None
+            if e['k'] in CALL_KINDS and (e.get('fq') or '') == 'free' and e.get('args'):
+                a = dt.strip_all_casts(dt.N(e['args'][0]))
+            elif e['k'] == 'CXXDeleteExpr' and e.get('c'):
+                a = dt.strip_all_casts(dt.N(e['c'][0]))
+            if a is None:
+                continue
+            if a['k'] == 'ArraySubscriptExpr':
+                b_ = dt.strip_all_casts(dt.N(a['c'][0]))
+                if b_['k'] == 'MemberExpr' and b_.get('dk') == 'Field' and dt.strip_all_casts(dt.N(a['c'][1])).get('v') is None:
+                    elems.add(b_['d'])
+            elif a['k'] == 'MemberExpr' and a.get('dk') == 'Field':
+                whole.add(a['d'])
+        for F_ in elems & whole:
+            n += 1
+            cls = dt.f.get('cls')
+            for fn in fx.all_fns():
+                if fn.f.get('cls') != cls or fn is dt or fn.f.get('implicit') or fn.q.split('::')[-1].startswith('~'):
+                    continue
+                fw = [e for e in calls_in(fn, 'free') if e.get('args') and fn.strip_all_casts(fn.N(e['args'][0])).get('d') == F_]
+                fe = [e for e in calls_in(fn, 'free') if e.get('args') and fn.strip_all_casts(fn.N(e['args'][0]))['k'] == 'ArraySubscriptExpr'
+                      and fn.strip_all_casts(fn.N(fn.strip_all_casts(fn.N(e['args'][0]))['c'][0])).get('d') == F_]
+                if fw and not fe:
+                    bad.append((fn, fw[0], F_, dt))
+    inst = 'an array of owned blocks is given up only together with its blocks'
+    if n < 1:
+        run.broken('OWNFIELD', inst, 'no destructor that frees the elements of a member array and then the array was found (CachedCmap::m_blocks confirmed)')
+    elif bad:
+        fn, e, F_, dt = bad[0]
+        run.violated('OWNFIELD', inst, fn.loc(e), '%s frees %s but not the blocks it points to, which %s frees one by one: every block already hanging from the index is orphaned (and the '
+                     'destructor, finding the index null, frees nothing)' % (fn.q, F_.split('::')[-1], dt.q))
+    else:
+        run.held('OWNFIELD', inst, '', '%d such member array(s); only their destructors free the index' % n)
+
+
 def poolhead(run, fx):
     """OWNFIELD for the preloaded glyph and box pools: ~GlyphCache releases element 0 of `_glyphs` / `_boxes` when the loader is gone
     (the element points at the whole pool).  So wherever the constructor gives a pool up itself (`delete [] glyphs`, `free(boxes)` on a
@@ -618,6 +663,7 @@ def poolhead(run, fx):
 
 def freenull(run, fx):
     poolhead(run, fx)
+    nestedfree(run, fx)
     reallocfail(run, fx)
     """OWNFIELD, third part: a member function other than the destructor that frees one of the object's own buffers leaves the field
     pointing somewhere else (null, or a replacement) on every path to its exit.  Such functions run while the object lives on --
@@ -890,8 +936,13 @@ def ownlocal(run, fx, reach_q):
                     for jj, a in enumerate(args):
                         if a is None or not any(isv(x) for x in fn.walk(a)):
                             continue
+                        key0 = u.get('fm')
+                        if key0 not in fx.raw['functions']:
+                            key0 = '%s@%s' % (key0, fn.f.get('unit'))
                         if not isv(a):
-                            uses = True          # an expression built from the pointer (p + n, &p->x, p[i]): kept as before
+                            # an expression built from the pointer (p + n, &p->x, p[i]): a sink unless the callee is known only to read it
+                            if key0 not in fx.raw['functions'] or takes_ownership(fx, key0, jj):
+                                uses = True
                             continue
                         key = u.get('fm')
                         if key not in fx.raw['functions']:
